@@ -113,3 +113,7 @@ Definition atoi (s : list N) : option Z :=
                      if ((min_int64 <=? v) && (v <=? max_int64))%Z then Some v else None
          end
   end.
+
+(* wrap to int64 (Go int arithmetic on the 64-bit platforms the harness runs on) *)
+Definition wrap64 (z : Z) : Z :=
+  ((z + 9223372036854775808) mod 18446744073709551616 - 9223372036854775808)%Z.
